@@ -34,9 +34,22 @@ def fn_body(src, name):
     i = src.index("{", j)
     depth, k = 0, i
     while k < len(src):
-        if src[k] == "{":
+        c = src[k]
+        if c == "'" and k + 2 < len(src) and src[k + 2] == "'":      # char literal such as '{' or '}'
+            k += 3
+            continue
+        if c == '"':                                                  # string literal
+            k += 1
+            while k < len(src) and src[k] != '"':
+                k += 2 if src[k] == "\\" else 1
+            k += 1
+            continue
+        if c == "/" and src.startswith("//", k):                      # line comment
+            k = src.index("\n", k)
+            continue
+        if c == "{":
             depth += 1
-        elif src[k] == "}":
+        elif c == "}":
             depth -= 1
             if depth == 0:
                 return src[m.start():k + 1]
@@ -106,6 +119,87 @@ end Goml.Gen
 """
     write_if_changed("QueryGlue.lean", text)
 
+
+def t_names(text):
+    """`T![fn] | T!['}'] | …` -> ["fn", "}", …]"""
+    return [m.group(1) or m.group(2) for m in re.finditer(r"T!\[(?:'([^']+)'|([^\]]+))\]", text)]
+
+def lean_str_list(xs):
+    return "[" + ", ".join('"' + x.replace("\\", "\\\\").replace('"', '\\"') + '"' for x in xs) + "]"
+
+def extract_parser_consts():
+    """C04: the parser's fuel constant and the shape of peek/nth/advance it is used in"""
+    src = read("crates/parser/src/parser.rs")
+    new = fn_body(src, "new")
+    m = re.search(r"fuel:\s*Cell::new\((\d+)\)", src)
+    if not m:
+        raise Exception("parser.rs: `fuel: Cell::new(N)` not found in Parser::new")
+    fuel = int(m.group(1))
+    adv = fn_body(src, "advance")
+    m2 = re.search(r"self\.fuel\.set\((\d+)\);", adv or "")
+    if not adv or not m2 or int(m2.group(1)) != fuel:
+        raise Exception("parser.rs: advance() no longer resets the fuel to the initial value")
+    if not re.search(r"self\.input\.skip\(\);\s*self\.stuck_reported\.set\(false\);\s*self\.events\.push\(Event::Advance\);", adv):
+        raise Exception("parser.rs: advance() is not `fuel.set; input.skip; stuck_reported.set(false); push(Advance)`")
+    for f in ("peek", "nth"):
+        b = fn_body(src, f)
+        if not b or not re.search(r"if self\.fuel\.get\(\) == 0 \{", b) or not re.search(r"return T!\[eof\];", b) \
+                or not re.search(r"self\.fuel\.set\(self\.fuel\.get\(\) - 1\);", b) or not re.search(r"if !self\.stuck_reported\.get\(\)", b):
+            raise Exception(f"parser.rs: {f}() is not the modelled fuel check (fuel == 0 -> report once, return eof; else fuel -= 1)")
+    eof = fn_body(src, "eof")
+    if not eof or "self.input.eof()" not in eof or "fuel" in eof:
+        raise Exception("parser.rs: eof() is not the plain input.eof() any more")
+    text = f"""/- GENERATED by tools/extract.py from crates/parser/src/parser.rs — do not edit. -/
+namespace Goml.Gen
+
+/-- `Parser::new`: `fuel: Cell::new({fuel})`, and `advance()` resets to the same value -/
+def parserFuel : Nat := {fuel}
+
+end Goml.Gen
+"""
+    write_if_changed("Consts.lean", text)
+
+def extract_recovery():
+    """C04: should_consume_on_expect_failure (tokens `expect` never eats) and EXPR_FIRST"""
+    src = read("crates/parser/src/parser.rs")
+    b = fn_body(src, "should_consume_on_expect_failure")
+    if not b or not re.search(r"!matches!\(\s*kind,", b):
+        raise Exception("parser.rs: should_consume_on_expect_failure is not `!matches!(kind, …)`")
+    keep = t_names(b)
+    if len(keep) < 5 or "fn" not in keep or "}" not in keep:
+        raise Exception(f"parser.rs: unexpected recovery set {keep}")
+    ex = fn_body(src, "expect")
+    if not ex or not re.search(r"if cur_kind == T!\[eof\] \|\| !should_consume_on_expect_failure\(cur_kind\) \{\s*self\.events\.push\(Event::Error\(err_msg\)\);\s*return;\s*\}\s*self\.advance_with_error\(&err_msg\);", ex):
+        raise Exception("parser.rs: expect() is not the modelled recovery (error only on eof / recovery token, else advance_with_error)")
+    awe = fn_body(src, "advance_with_error")
+    if not awe or not re.search(r"self\.events\.push\(Event::Error\(error\.to_string\(\)\)\);\s*self\.advance\(\);", awe):
+        raise Exception("parser.rs: advance_with_error() no longer advances unconditionally")
+    esrc = read("crates/parser/src/expr.rs")
+    m = re.search(r"pub const EXPR_FIRST: &\[TokenKind\] = &\[(.*?)\];", esrc, flags=re.S)
+    if not m:
+        raise Exception("expr.rs: EXPR_FIRST not found")
+    first = t_names(m.group(1))
+    fsrc = read("crates/parser/src/file.rs")
+    fb = fn_body(fsrc, "file")
+    if not fb or not re.search(r"while !p\.eof\(\) \{", fb) or not re.search(r"\} else \{\s*p\.advance_with_error\(\"expected a function\"\)\s*\}", fb):
+        raise Exception("file.rs: the top-level loop is not `while !p.eof() { if p.at(..) … else { p.advance_with_error(..) } }`")
+    guards = t_names(" ".join(re.findall(r"if p\.at\((T!\[[^\]]+\])\)", fb)))
+    text = f"""/- GENERATED by tools/extract.py from crates/parser/src/parser.rs, expr.rs, file.rs — do not edit. -/
+namespace Goml.Gen
+
+/-- tokens `Parser::expect` reports but never consumes (`should_consume_on_expect_failure` is false) -/
+def recoveryTokens : List String := {lean_str_list(keep)}
+
+/-- `EXPR_FIRST` -/
+def exprFirst : List String := {lean_str_list(first)}
+
+/-- the `p.at(..)` guards of the top-level loop of `file()` in order -/
+def fileGuards : List String := {lean_str_list(guards)}
+
+end Goml.Gen
+"""
+    write_if_changed("Recovery.lean", text)
+
 def main():
     errors = []
     # extractors are registered below as they are added
@@ -118,7 +212,7 @@ def main():
         print("\n".join(errors))
         sys.exit(1)
 
-EXTRACTORS = [extract_query_glue]
+EXTRACTORS = [extract_query_glue, extract_parser_consts, extract_recovery]
 
 if __name__ == "__main__":
     main()
